@@ -16,6 +16,15 @@ Proof.
 Qed.
 Print Assumptions C11_literals_are_language.
 
+(* the literals have a string form: every literal of a rewrite consists of Unicode scalar values.  A regex can name a
+   surrogate (/^[\x{D800}-\x{D801}]$/); Go writes a surrogate into a string as U+FFFD, which the regex does not match,
+   so such a regex must be left alone (genuine defect, repaired: the surrogate guard in matchRegex).  The model's
+   strings are lists of code points, Go's are UTF-8: on texts of scalar values the two agree. *)
+Theorem C11_literals_have_string_form : forall re vals, match_exact re = Some vals ->
+  Forall (fun v => forallb valid_rune v = true) vals.
+Proof. exact match_exact_valid. Qed.
+Print Assumptions C11_literals_have_string_form.
+
 (* when matchExactRegex yields literals the regex is  ^ body $  with TEXT anchors, and it matches (anywhere in the
    subject, as MatchString does) exactly the listed whole strings - none at all when the list is empty (an empty
    character class); /^$/ yields the one literal "" *)
